@@ -107,8 +107,16 @@ pub fn freeze() {
 	}
 }
 
-pub fn set_faults(faults: Vec<FaultSpec>) {
+/// Install faults in the middle of a session. `Class { nth }` counts from now on (the n-th
+/// call of that kind on that class after this point), `Call(n)` stays absolute.
+pub fn set_faults(mut faults: Vec<FaultSpec>) {
 	if let Some(s) = SESSION.lock().unwrap().as_mut() {
+		for f in faults.iter_mut() {
+			if let crate::disk::FaultAt::Class { kind, class, nth } = &mut f.at {
+				let seen = s.fault_counters.get(&(*kind, class.clone())).copied().unwrap_or(0);
+				*nth += seen as u32;
+			}
+		}
 		s.faults = faults;
 	}
 }
